@@ -1,7 +1,7 @@
 #!/bin/bash
 # tools/import_seed.sh C04 [W2|W3]  : copies /tmp/seed/[Wn]C04/SEED/{1,2} into /verif/seeded/C04-{1,2} (wave 2: -{3,4}, wave 3: -{5,6}, wave 4: -{7,8})
 p="$1"; w="${2:-}"
-off=0; [ "$w" = "W2" ] && off=2; [ "$w" = "W3" ] && off=4; [ "$w" = "W4" ] && off=6; [ "$w" = "W5" ] && off=8; [ "$w" = "W6" ] && off=10; [ "$w" = "W7" ] && off=12
+off=0; [ "$w" = "W2" ] && off=2; [ "$w" = "W3" ] && off=4; [ "$w" = "W4" ] && off=6; [ "$w" = "W5" ] && off=8; [ "$w" = "W6" ] && off=10; [ "$w" = "W7" ] && off=12; [ "$w" = "W8" ] && off=14
 for k in 1 2; do
   s=/tmp/seed/$w$p/SEED/$k
   t=$((k+off))
